@@ -121,13 +121,64 @@ class PEval:
                 return self.value(expr.body, env)
             if c is False:
                 return self.value(expr.orelse, env)
+        if isinstance(expr, (ast.Tuple, ast.List)):
+            vals = [self.value(e, env) for e in expr.elts]
+            if all(isinstance(v, Const) for v in vals):
+                return Const([v.value for v in vals])
+            return None
+        if isinstance(expr, (ast.GeneratorExp, ast.ListComp)) and \
+                len(expr.generators) == 1 and \
+                isinstance(expr.generators[0].target, ast.Name):
+            gen = expr.generators[0]
+            seq = self.value(gen.iter, env)
+            if isinstance(seq, Const) and \
+                    isinstance(seq.value, (str, list, tuple)):
+                out = []
+                for el in seq.value:
+                    e2 = dict(env)
+                    e2[gen.target.id] = Const(el)
+                    keep = True
+                    for cond in gen.ifs:
+                        t = self.truth(cond, e2)
+                        if t is None:
+                            return None
+                        keep = keep and t
+                    if not keep:
+                        continue
+                    v = self.value(expr.elt, e2)
+                    if not isinstance(v, Const):
+                        return None
+                    out.append(v.value)
+                return Const(out)
+            return None
         return self._fold_text(expr, env)
 
     # total, pure operations on constant text (no user code involved)
     _STR_METHODS = ("startswith", "endswith", "rstrip", "lstrip", "strip",
-                    "lower", "upper", "replace", "find", "count")
+                    "lower", "upper", "replace", "find", "rfind", "index",
+                    "count", "format")
 
     def _fold_text(self, expr: ast.AST, env: Env) -> Any:
+        if isinstance(expr, ast.Call) and isinstance(expr.func, ast.Name) \
+                and expr.func.id == "format" and len(expr.args) == 2 and \
+                not expr.keywords:
+            a, b = self.value(expr.args[0], env), self.value(expr.args[1], env)
+            if isinstance(a, Const) and isinstance(b, Const) and \
+                    isinstance(a.value, (int, float, str)) and \
+                    isinstance(b.value, str):
+                try:
+                    return Const(format(a.value, b.value))
+                except (TypeError, ValueError):
+                    return None
+            return None
+        if isinstance(expr, ast.Call) and isinstance(expr.func, ast.Name) \
+                and expr.func.id == "str" and len(expr.args) == 1 and \
+                not expr.keywords:
+            a = self.value(expr.args[0], env)
+            if isinstance(a, Const) and isinstance(a.value, (str, int)) and \
+                    not isinstance(a.value, bool):
+                return Const(str(a.value))
+            return None
         if isinstance(expr, ast.BinOp) and isinstance(expr.op, ast.Add):
             a, b = self.value(expr.left, env), self.value(expr.right, env)
             if isinstance(a, Const) and isinstance(b, Const) and \
@@ -141,6 +192,57 @@ class PEval:
             if isinstance(a, Const) and isinstance(a.value, str):
                 return Const(len(a.value))
             return None
+        # split / join / list / map(lambda) over constant text
+        if isinstance(expr, ast.Call) and \
+                isinstance(expr.func, ast.Attribute) and \
+                expr.func.attr in ("split", "rsplit") and not expr.keywords:
+            recv = self.value(expr.func.value, env)
+            args = [self.value(a, env) for a in expr.args]
+            if isinstance(recv, Const) and isinstance(recv.value, str) and \
+                    all(isinstance(a, Const) and
+                        isinstance(a.value, (str, int)) for a in args):
+                try:
+                    return Const(getattr(recv.value, expr.func.attr)(
+                        *[a.value for a in args]))
+                except (TypeError, ValueError):
+                    return None
+            return None
+        if isinstance(expr, ast.Call) and \
+                isinstance(expr.func, ast.Attribute) and \
+                expr.func.attr == "join" and len(expr.args) == 1 and \
+                not expr.keywords:
+            recv = self.value(expr.func.value, env)
+            arg = self.value(expr.args[0], env)
+            if isinstance(recv, Const) and isinstance(recv.value, str) and \
+                    isinstance(arg, Const) and \
+                    isinstance(arg.value, (list, tuple)) and \
+                    all(isinstance(x, str) for x in arg.value):
+                return Const(recv.value.join(arg.value))
+            return None
+        if isinstance(expr, ast.Call) and isinstance(expr.func, ast.Name) \
+                and expr.func.id in ("list", "tuple") and \
+                len(expr.args) == 1 and not expr.keywords:
+            a = self.value(expr.args[0], env)
+            if isinstance(a, Const) and isinstance(a.value, (list, tuple)):
+                return Const(list(a.value))
+            return None
+        if isinstance(expr, ast.Call) and isinstance(expr.func, ast.Name) \
+                and expr.func.id == "map" and len(expr.args) == 2 and \
+                isinstance(expr.args[0], ast.Lambda) and \
+                len(expr.args[0].args.args) == 1:
+            seq = self.value(expr.args[1], env)
+            lam = expr.args[0]
+            if isinstance(seq, Const) and isinstance(seq.value, (list, tuple)):
+                out = []
+                for el in seq.value:
+                    e2 = dict(env)
+                    e2[lam.args.args[0].arg] = Const(el)
+                    v = self.value(lam.body, e2)
+                    if not isinstance(v, Const):
+                        return None
+                    out.append(v.value)
+                return Const(out)
+            return None
         if isinstance(expr, ast.Call) and \
                 isinstance(expr.func, ast.Attribute) and \
                 expr.func.attr in self._STR_METHODS and not expr.keywords:
@@ -152,7 +254,7 @@ class PEval:
                 try:
                     return Const(getattr(recv.value, expr.func.attr)(
                         *[a.value for a in args]))
-                except (TypeError, ValueError):
+                except (TypeError, ValueError, IndexError, KeyError):
                     return None
             return None
         if isinstance(expr, ast.Subscript):
@@ -261,6 +363,11 @@ class PEval:
                     isinstance(lv.value, str) and isinstance(rv.value, str):
                 hit_s = lv.value in rv.value
                 return hit_s if isinstance(op, ast.In) else not hit_s
+            if isinstance(lv, Const) and isinstance(rv, Const) and \
+                    isinstance(rv.value, (list, tuple)) and \
+                    not isinstance(right, (ast.List, ast.Tuple, ast.Set)):
+                hit_l = lv.value in rv.value
+                return hit_l if isinstance(op, ast.In) else not hit_l
             if lv is None or not isinstance(right, (ast.List, ast.Tuple,
                                                     ast.Set)):
                 return None
@@ -326,6 +433,8 @@ class PEval:
         ``typed = convert(raw)`` whose kind is the case being analysed."""
         self._pinned = set(pinned or ())
         self.returned = []
+        self.stored = []
+        self.calls = []
         res, _ = self._block(stmts, dict(env))
         self._pinned = set()
         return res
@@ -334,6 +443,12 @@ class PEval:
     #: (return statement, abstract value, abstract values of its call
     #: arguments) for every Return reached by the last specialise()
     returned: List[Tuple[ast.stmt, Any, List[Any]]] = []
+    #: (assignment to an attribute, abstract value stored) likewise
+    stored: List[Tuple[ast.stmt, Any]] = []
+    #: names of callees whose argument values are to be recorded, and the
+    #: record: (call, positional values, keyword values)
+    watch_calls: Set[str] = set()
+    calls: List[Tuple[ast.Call, List[Any], Dict[str, Any]]] = []
 
     def _kill(self, env: Env, names: Iterable[str]) -> None:
         names = set(names) - self._pinned
@@ -367,6 +482,18 @@ class PEval:
             self._kill(env, [stmt.target.id])
             if v is not None:
                 env[stmt.target.id] = v
+            return
+        if isinstance(stmt, ast.AugAssign) and \
+                isinstance(stmt.target, ast.Name) and \
+                isinstance(stmt.op, ast.Add) and \
+                stmt.target.id not in self._pinned:
+            cur = env.get(stmt.target.id)
+            inc = self.value(stmt.value, env)
+            self._kill(env, [stmt.target.id])
+            if isinstance(cur, Const) and isinstance(inc, Const) and \
+                    type(cur.value) is type(inc.value) and \
+                    isinstance(cur.value, (str, int)):
+                env[stmt.target.id] = Const(cur.value + inc.value)
             return
         self._kill(env, assigned_names(stmt, mutation=False))
 
@@ -446,6 +573,18 @@ class PEval:
                 out.append(new)
                 continue
             out.append(stmt)
+            if isinstance(stmt, ast.Assign) and len(stmt.targets) == 1 and \
+                    isinstance(stmt.targets[0], ast.Attribute):
+                self.stored.append((stmt, self.value(stmt.value, env)))
+            if self.watch_calls and isinstance(
+                    stmt, (ast.Assign, ast.AnnAssign, ast.Expr, ast.Return)):
+                for c in ast.walk(stmt):
+                    if isinstance(c, ast.Call) and \
+                            src(c.func).split(".")[-1] in self.watch_calls:
+                        self.calls.append((
+                            c, [self.value(a, env) for a in c.args],
+                            {k.arg: self.value(k.value, env)
+                             for k in c.keywords if k.arg}))
             if isinstance(stmt, ast.Return) and stmt.value is not None:
                 v = self.value(stmt.value, env)
                 argv = [self.value(a, env) for a in stmt.value.args] \
